@@ -1109,21 +1109,23 @@ func writeOnceCell(a *ssa.Alloc, depth int) bool {
 			init = st
 		}
 	}
-	if init == nil || len(fn.Blocks) == 0 || init.Block() != fn.Blocks[0] {
+	// the initialising store sits in the block that allocates the cell (each execution of that block makes a new cell
+	// and writes it once: the entry block for a captured parameter, a loop body for a variable declared in the loop)
+	if init == nil || len(fn.Blocks) == 0 || a.Block() == nil || init.Block() != a.Block() {
 		return false
 	}
 	// every closure over the cell is made after the initialising store
-	seenInit := false
-	for _, ins := range fn.Blocks[0].Instrs {
-		if ins == ssa.Instruction(init) {
-			seenInit = true
+	for _, r := range *refs {
+		mc, ok := r.(*ssa.MakeClosure)
+		if !ok {
+			continue
 		}
-		if mc, ok := ins.(*ssa.MakeClosure); ok && !seenInit {
-			for _, b := range mc.Bindings {
-				if b == ssa.Value(a) {
-					return false
-				}
+		if mc.Block() == init.Block() {
+			if instrIndexOf(mc) < instrIndexOf(init) {
+				return false
 			}
+		} else if !init.Block().Dominates(mc.Block()) {
+			return false
 		}
 	}
 	for _, r := range *refs {
@@ -1151,6 +1153,15 @@ func writeOnceCell(a *ssa.Alloc, depth int) bool {
 		}
 	}
 	return true
+}
+
+func instrIndexOf(ins ssa.Instruction) int {
+	for i, x := range ins.Block().Instrs {
+		if x == ins {
+			return i
+		}
+	}
+	return -1
 }
 
 // constGlobal returns the one value a write-once package variable (see initNonNil) holds after package
